@@ -1,4 +1,4 @@
-import QtVerif.Proofs.HistoryApi
+import QtVerif.Proofs.HistorySplit
 /-!
 C18 — History queries return exactly the requested samples, in the requested order.
 
@@ -180,6 +180,90 @@ theorem remove_without_port_breaks_transparency :
       (run { minAge := 1000 } ⟨store0, [], []⟩ ops).2 ≠ (run (noCache { minAge := 1000 }) ⟨store0, [], []⟩ ops).2 :=
   ⟨[⟨1, 60, 8⟩], [.byTs 1 5000 [100], .remove [] none none, .byTs 1 5000 [100]], by decide⟩
 
+/-- **`limit`, `from` and `to` do not bound a by-timestamp request**: they are validated, but the answer has one entry
+per requested timestamp however many there are — two valid requests with the same `timestamps` get the same answer. -/
+theorem api_by_timestamp_ignores_range_args (cfg : Cfg) (st : State) (level pid : Nat) (now : Int) (q q' : Query)
+    (p : Port) (a a' : HistArgs) (tss : List Int) (hl : cfg.viewLevel ≤ level) (hp : findPort st pid = some p)
+    (ha : parseHistArgs cfg now q = .ok a) (ha' : parseHistArgs cfg now q' = .ok a')
+    (ht : a.timestamps = some tss) (ht' : a'.timestamps = some tss) :
+    (getPortHistory cfg st level pid now q).2.1 = (getPortHistory cfg st level pid now q').2.1 ∧
+    ∃ out, (getPortHistory cfg st level pid now q).2.1 = .ok (.byTs out) ∧ (cfg.repaired = true → out.length = tss.length) := by
+  have e1 := (getPortHistory_byTs cfg st level pid now q p a tss hl hp ha ht).1
+  have e2 := (getPortHistory_byTs cfg st level pid now q' p a' tss hl hp ha' ht').1
+  refine ⟨e1.trans e2.symm, _, e1, ?_⟩
+  intro hr
+  exact (by_timestamp_one_entry_per_request cfg hr st pid p.ptype now tss).2
+
+/-! ### Operations that overlap at their await point
+
+A by-timestamp query reads the cache, then awaits the persistence layer, then stores the answers; a removal pops the
+cache dicts, then awaits the persistence layer.  `SOp` splits them accordingly; any other operation may run in between
+(`QtVerif/Model/History.lean`, last section). -/
+
+/-- **The cache invariant survives overlapping operations.**  For every history in which by-timestamp queries are
+suspended at their persistence call (the query executing at any instant between start and resumption) while removals,
+recordings, sampler / janitor iterations and other queries run to completion, with a monotone clock and removals naming
+a port: every memoised answer still equals what the store answers.  It holds for the code as it is because the query
+writes into the dict it bound BEFORE the await — a dict popped meanwhile is only an orphan (`cfg.lateDict = false`).
+A removal split from its cache invalidation (`delExec`) is covered only with `cfg.popAfter` (see
+`overlapped_remove_race`). -/
+theorem split_cache_always_consistent (cfg : Cfg) (hr : cfg.repaired = true) (hl : cfg.lateDict = false)
+    (h0 : 0 ≤ cfg.minAge) (store0 : List Sample) (ports0 : List Port) (T0 : Int) (ops : List SOp)
+    (hm : SMonotone cfg T0 ops) :
+    ∃ T, CacheOK (sRun cfg ⟨⟨store0, [], ports0⟩, []⟩ ops).1.st T := by
+  have hinv : SInv cfg ⟨⟨store0, [], ports0⟩, []⟩ T0 := by
+    constructor
+    · intro pid t v h; cases h
+    · intro fl h; cases h
+  obtain ⟨T, h⟩ := sRun_inv cfg hr hl h0 ops _ T0 hinv hm
+  exact ⟨T, h.1⟩
+
+/-- Hence **every later by-timestamp answer is the specified one for the then-current store**, whatever overlapped
+before. -/
+theorem later_answers_follow_spec (cfg : Cfg) (hr : cfg.repaired = true) (hl : cfg.lateDict = false)
+    (h0 : 0 ≤ cfg.minAge) (store0 : List Sample) (ports0 : List Port) (T0 : Int) (ops : List SOp)
+    (hm : SMonotone cfg T0 ops) (pid : Nat) (now : Int) (tss : List Int) :
+    let s := (sRun cfg ⟨⟨store0, [], ports0⟩, []⟩ ops).1
+    (sStep cfg s (.atomic (.byTs pid now tss))).2 =
+      some (.byTs (tss.map (fun t => ((newestLE s.st.store pid t).map (adapt (ptypeOf s.st pid))).map (fun v => (t, v))))) := by
+  intro s
+  obtain ⟨T, hok⟩ := split_cache_always_consistent cfg hr hl h0 store0 ports0 T0 ops hm
+  show some (Ans.byTs (hByTs cfg s.st pid (ptypeOf s.st pid) now tss).2.1) = _
+  rw [by_timestamp_spec cfg hr s.st T hok pid now tss]
+
+/-- **What the overlapped query itself answers**: one entry per requested timestamp, in request order; each the value
+memoised when the query started, else what the store answered at the instant its persistence query executed. -/
+theorem overlapped_query_answer (cfg : Cfg) (hr : cfg.repaired = true) (st0 st : State) (k pid : Nat) (pt : PType)
+    (now : Int) (tss : List Int) (store1 : List Sample) (orphan : Bool) :
+    (flightEnd cfg st { flightBegin st0 k pid pt now tss with
+        fetched := some (pByTs store1 pid (flightBegin st0 k pid pt now tss).missed), orphan := orphan }).2 =
+      tss.map (fun t => entry t (match cacheGet st0.cache pid t with
+                                  | some v => v
+                                  | none => fresh store1 pid pt t)) :=
+  flightEnd_out cfg hr st0 st k pid pt now tss store1 orphan
+
+/-- If the dict were looked up again when the answer is stored (`lateDict`, the seeded change C18-r2-1) a removal that
+completes while the query waits leaves the removed sample in the cache: the store is empty, yet the next query answers it. -/
+theorem late_dict_stale_after_overlapped_remove :
+    ∃ (ops : List SOp), SMonotone { lateDict := true, minAge := 1000 } 0 ops ∧
+      (sRun { lateDict := true, minAge := 1000 } ⟨⟨[⟨1, 60, 8⟩], [], []⟩, []⟩ ops).1.st.store = [] ∧
+      (sRun { lateDict := true, minAge := 1000 } ⟨⟨[⟨1, 60, 8⟩], [], []⟩, []⟩ ops).2.getLast? =
+        some (some (.byTs [some (100, .f 8)])) :=
+  ⟨[.getBegin 0 1 5000 [100], .getFetch 0, .atomic (.remove [1] none none), .getEnd 0, .atomic (.byTs 1 5000 [100])],
+   by decide, by decide, by decide⟩
+
+/-- The code as it is invalidates the cache only BEFORE the removal's persistence call: a by-timestamp query running
+between the two halves memoises a sample the removal then deletes (known finding C18-remove-overlap-stale-cache; needs a
+driver that really suspends).  With the cache dropped again afterwards (`popAfter`) the same history is harmless — and
+`split_cache_always_consistent` covers it. -/
+theorem overlapped_remove_race :
+    let ops : List SOp := [.delBegin [1], .atomic (.byTs 1 5000 [100]), .delExec [1] none none, .atomic (.byTs 1 5000 [100])]
+    (sRun { minAge := 1000 } ⟨⟨[⟨1, 60, 8⟩], [], []⟩, []⟩ ops).1.st.store = [] ∧
+    (sRun { minAge := 1000 } ⟨⟨[⟨1, 60, 8⟩], [], []⟩, []⟩ ops).2.getLast? = some (some (.byTs [some (100, .f 8)])) ∧
+    SMonotone { minAge := 1000, popAfter := true } 0 ops ∧
+    (sRun { minAge := 1000, popAfter := true } ⟨⟨[⟨1, 60, 8⟩], [], []⟩, []⟩ ops).2.getLast? = some (some (.byTs [none])) := by
+  decide
+
 /-! ### Deletion -/
 
 /-- **Deletion removes exactly the half-open range of the given ports**: a sample survives iff it was stored and is not
@@ -266,6 +350,16 @@ example :
     = [.byTs [some (100, .i 2), some (100, .i 2), none], .none, .byTs [some (5000, .i 3), none], .none, .none,
        .byTs [some (5000, .i 3), none], .range [(200, .i 3), (5000, .i 3)]] := by
   decide
+
+-- an overlapped history of the code as it is: the query is suspended, the removal completes, the query resumes with the
+-- old sample (it was ordered first), the next query sees the removal
+example : SMonotone { minAge := 1000 } 0
+    [.getBegin 0 1 5000 [100, 50], .getFetch 0, .atomic (.remove [1] none none), .atomic (.poll 1 5000 none), .getEnd 0,
+     .atomic (.byTs 1 5000 [100])] ∧
+    (sRun { minAge := 1000 } ⟨⟨[⟨1, 60, 8⟩], [], []⟩, []⟩
+      [.getBegin 0 1 5000 [100, 50], .getFetch 0, .atomic (.remove [1] none none), .atomic (.poll 1 5000 none), .getEnd 0,
+       .atomic (.byTs 1 5000 [100])]).2
+      = [none, none, some .none, some .none, some (.byTs [some (100, .f 8), none]), some (.byTs [none])] := by decide
 
 -- a consistent non-empty cache (hypothesis of `by_timestamp_spec`)
 example : ∃ (st : State) (T : Int), st.cache ≠ [] ∧ CacheOK st T :=
